@@ -274,6 +274,12 @@ func (p *Payload) extractCriticalFieldsFromBytes(data []byte, traceIdFieldNames,
 
 	var keysFound int
 
+	// The trace ID is meta.trace_id if that holds a non-empty string, otherwise
+	// the value of the first configured trace ID field, in configured order,
+	// that does - whatever order the fields have on the wire.
+	traceIDBefore := p.MetaTraceID
+	fieldTraceID, fieldTraceIDIdx := "", len(traceIdFieldNames)
+
 	// Read the map header
 	mapSize, remaining, err := msgp.ReadMapHeaderBytes(data)
 	if err != nil {
@@ -324,9 +330,12 @@ func (p *Payload) extractCriticalFieldsFromBytes(data []byte, traceIdFieldNames,
 
 		// Handle special trace ID and parent ID fields
 		if !handled && valueType == msgp.StrType {
-			_, ok := sliceContains(traceIdFieldNames, keyBytes)
-			if p.MetaTraceID == "" && ok {
-				p.MetaTraceID, remaining, err = msgp.ReadStringBytes(remaining)
+			if idx, ok := sliceContains(traceIdFieldNames, keyBytes); ok {
+				var traceID string
+				traceID, remaining, err = msgp.ReadStringBytes(remaining)
+				if err == nil && traceID != "" && idx < fieldTraceIDIdx {
+					fieldTraceID, fieldTraceIDIdx = traceID, idx
+				}
 				handled = true
 			} else if _, ok := sliceContains(parentIdFieldNames, keyBytes); ok {
 				var parentId string
@@ -368,6 +377,15 @@ func (p *Payload) extractCriticalFieldsFromBytes(data []byte, traceIdFieldNames,
 			if err != nil {
 				return len(data) - len(remaining), fmt.Errorf("failed to skip value: %w", err)
 			}
+		}
+	}
+
+	if p.MetaTraceID == "" {
+		// no (or an empty) meta.trace_id in this map
+		if traceIDBefore != "" {
+			p.MetaTraceID = traceIDBefore
+		} else {
+			p.MetaTraceID = fieldTraceID
 		}
 	}
 
@@ -432,18 +450,21 @@ func (p *Payload) ExtractMetadata() error {
 				handled = true
 			}
 
-			// If not handled as metadata, check for trace/parent ID fields
-			if !handled {
-				// Check if this is a trace ID field
-				if p.MetaTraceID == "" && slices.Contains(traceIdFieldNames, key) {
-					if v, ok := value.(string); ok && v != "" {
-						p.MetaTraceID = v
-					}
-				} else if slices.Contains(parentIdFieldNames, key) {
-					// Check if this is a parent ID field
-					if v, ok := value.(string); ok && v != "" {
-						p.MetaRefineryRoot.Set(false)
-					}
+			// If not handled as metadata, check for parent ID fields
+			if !handled && slices.Contains(parentIdFieldNames, key) {
+				if v, ok := value.(string); ok && v != "" {
+					p.MetaRefineryRoot.Set(false)
+				}
+			}
+		}
+
+		// The trace ID fields are consulted in configured order (map iteration
+		// order is random), and only when meta.trace_id gave no trace ID.
+		if p.MetaTraceID == "" {
+			for _, name := range traceIdFieldNames {
+				if v, ok := p.memoizedFields[name].(string); ok && v != "" {
+					p.MetaTraceID = v
+					break
 				}
 			}
 		}
